@@ -1,7 +1,7 @@
 """C17 — point cloud -> spanning tree (swcgeom/transforms/mst.py): sidecar contracts (no edit of /repo).
 
-Carriers: PointsToCuntzMST.__call__ (the Prim-style loop over a masked cost matrix), PointsToCuntzMST.__init__,
-PointsToMST.__init__.  Library models of this property live in pyvc/ext_C17.py.
+Carriers: PointsToCuntzMST.__call__ (the Prim-style loop over a masked cost matrix and the construction of the returned tree),
+PointsToCuntzMST.__init__, PointsToMST.__init__, Tree.from_data_frame.  Library models of this property live in pyvc/ext_C17.py.
 
 What is proved for __call__ (n symbolic, dis = abstract Euclidean distance matrix, K = self.furcations,
 bf = self.bf, all symbolic):
@@ -21,17 +21,25 @@ bf = self.bf, all symbolic):
   * frame: `self` and the input point cloud are not written.
 Ghost state (ghost code only, never assumed): g_perm / g_pos attachment order and its inverse, g_crank / g_kid rank
 of a node among its siblings and its inverse, g_depth.  Updated at the annotation point after `(i, j) = ...`.
-The tail of the function (Tree.from_data_frame, sort_tree) is cut off by ASSUMED contracts local to this carrier
-(an overlay registry, so no other carrier's call sites change); pd.DataFrame.from_dict is a library model.
+The tail of the function is REAL: the DataFrame built from the loop's arrays (pd.DataFrame.from_dict is a library model), Tree.from_data_frame
+through the contract verified on the real function below (used modularly, private overlay), sort_tree / _sort_tree / DictSWC.copy inlined,
+sort_nodes_impl through the contract proved under C05 (DEPENDS), whose ghost symbols are defined for the loop's table at the call.  The
+`returned-tree/...` postconditions speak about the RETURNED tree: a one-to-one map sg between its rows and the input rows (C05's index
+array when sort is on, the identity otherwise), positions / radius / types through sg, the single root = input row 0, parent ids = the
+greedy attachments read through sg, the branching cap on the returned parent column, ids 0..n-1 and parents first when sorted.
+FINDING (open): with column names other than the default ones and sort=True, _sort_tree stores the new numbering under "id" / "pid" instead
+of the given names; the three clauses marked FINDING below are not provable for that variant (see the comments there).
 MST optimality (Prim => minimum total length) is NOT proved here (bounded stand-in only).
 """
 import z3
 
 from pyvc import ext_C17 as X
 from pyvc.spec import Contract, Registry
-from pyvc.values import NArr, SArr, Sym, fresh_name, to_z3, zint
+from pyvc.values import NArr, Obj, PDict, PList, SArr, Sym, fresh_name, to_z3, zint
 
 X.install()
+
+DEPENDS = ["C05"]  # the tail of __call__ renumbers the tree through sort_tree -> _sort_tree -> sort_nodes_impl (contract proved under C05)
 
 MST = "swcgeom/transforms/mst.py"
 I = z3.IntSort()
@@ -361,6 +369,138 @@ def post(which):
     return f
 
 
+# ----------------------------------------------------------------------------- the RETURNED tree
+def _sort_call(E):
+    """the single call of sort_nodes_impl on this path (None when sort is off)"""
+    calls = [kw for nm, kw in E.call_log if nm == "sort_nodes_impl"]
+    return calls
+
+
+def _in_point(o, c, a):
+    """coordinate c of row a of the input: the cloud, preceded by the soma when one is given"""
+    pts, soma = o["points"], o["soma"]
+    if soma is None:
+        return z3.Select(pts.cols[c], a)
+    return z3.If(a == 0, to_z3(soma.items[c], "real"), z3.Select(pts.cols[c], a - 1))
+
+
+class Ret:
+    """the returned tree t and the one-to-one map between its rows and the input rows: sg(k) = input row shown in row k
+    (C05's index array when sort is on, the identity otherwise), iv = its inverse (C05's ghost `newof`)"""
+
+    def __init__(self, E, v, o):
+        from contracts import C05
+
+        self.ok = False
+        me = v["self"]
+        self.nm = v["names"]
+        t = v["result"]
+        calls = _sort_call(E)
+        if len(calls) > 1 or not isinstance(t, Obj) or not isinstance(t.fields.get("ndata"), PDict) or t.fields["ndata"].items is None:
+            return
+        self.t, self.nd = t, t.fields["ndata"].items
+        self.sorted = len(calls) == 1
+        self.flag = to_z3(me.fields["sort"], "bool") == z3.BoolVal(self.sorted)
+        if self.sorted:
+            sigma = calls[0]["__result__"][1]
+            self.sg, self.iv = (lambda k: z3.Select(sigma.arr, k)), (lambda p: C05.newof(p))
+        else:
+            self.sg = self.iv = lambda k: k
+        if not all(getattr(self.nm, f) in self.nd and type(self.nd[getattr(self.nm, f)]) is SArr and self.nd[getattr(self.nm, f)].kind == k for f, k in TKIND.items()):
+            return
+        self.ok = True
+
+    def col(self, f, k):
+        return z3.Select(self.nd[getattr(self.nm, f)].arr, k)
+
+
+def ret_post(which):
+    def f(E, v, o):
+        s = St(v)
+        n = s.n
+        r = Ret(E, v, o)
+        if not r.ok:
+            return False
+        me = v["self"]
+        k, l, p = _q("k", "l", "p")
+        rng = lambda x: z3.And(0 <= x, x < n)
+        if which == "a-Tree-with-exactly-the-seven-named-columns-of-n-rows-sharing-nothing-with-the-inputs":
+            # FINDING (names other than the default ones, sort on): _sort_tree ADDS columns "id" / "pid" (`ndata.update(id=..., pid=...)`)
+            # instead of overwriting the columns that carry the ids under the given names
+            if not tree_shaped(r.t, r.nm):
+                return False
+            fresh_ = r.t.uid not in E.entry_uids and r.t.fields["ndata"].uid not in E.entry_uids and all(a.uid not in E.entry_uids for a in r.nd.values())
+            return z3.And(z3.BoolVal(fresh_), r.flag, *[a.nz() == n for a in r.nd.values()])
+        if which == "rows-correspond-one-to-one-to-the-input-points-plus-soma":
+            return z3.And(r.flag,
+                          z3.ForAll([k], z3.Implies(rng(k), z3.And(rng(r.sg(k)), r.iv(r.sg(k)) == k))),
+                          z3.ForAll([p], z3.Implies(rng(p), z3.And(rng(r.iv(p)), r.sg(r.iv(p)) == p))))
+        if which == "every-row-carries-the-position-of-its-input-point-radius-1-type-soma-or-glia":
+            types = me.fields["types"]
+            conj = [z3.ForAll([k], z3.Implies(rng(k), r.col("xyz"[c], k) == _in_point(o, c, r.sg(k)))) for c in range(3)]
+            conj.append(z3.ForAll([k], z3.Implies(rng(k), z3.And(r.col("r", k) == 1, r.col("type", k) == z3.If(r.sg(k) == 0, types.soma, types.glia_processes)))))
+            return z3.And(*conj)
+        if which == "single-root-is-the-soma-or-first-point":
+            return z3.And(z3.ForAll([k], z3.Implies(rng(k), (r.col("pid", k) == -1) == (r.sg(k) == 0))), z3.Implies(z3.BoolVal(r.sorted), r.sg(z3.IntVal(0)) == 0))
+        if which == "parent-relation-is-the-greedy-attachments":
+            # the parent id stored in row k is the id of the row that shows the input point to which the loop attached k's point
+            return z3.ForAll([k], z3.Implies(z3.And(rng(k), r.sg(k) != 0), r.col("pid", k) == r.col("id", r.iv(s.Pid(r.sg(k))))))
+        if which == "ids-are-the-row-numbers":
+            # FINDING (names other than the default ones, sort on): the id column under the given name is only permuted, not renumbered
+            return z3.ForAll([k], z3.Implies(rng(k), r.col("id", k) == k))
+        if which == "sorted-result-has-root-0-and-parents-before-children":
+            # FINDING (names other than the default ones, sort on): same cause, the parent column under the given name is not renumbered
+            if not r.sorted:
+                return True
+            return z3.And(r.col("pid", z3.IntVal(0)) == -1, z3.ForAll([k], z3.Implies(z3.And(0 < k, k < n), z3.And(0 <= r.col("pid", k), r.col("pid", k) < k))))
+        if which == "no-non-exempt-node-has-more-than-K-children":
+            # ghost child rank of a row = rank of its input point among its siblings: injective among the rows with the same parent id,
+            # and within 1..K below every parent other than the exempt root
+            rk = lambda x: s.Crank(r.sg(x))
+            root_id = r.col("id", r.iv(z3.IntVal(0)))
+            nonroot = lambda x: z3.And(rng(x), r.col("pid", x) != -1)
+            return z3.And(
+                z3.ForAll([k, l], z3.Implies(z3.And(nonroot(k), nonroot(l), k != l, r.col("pid", k) == r.col("pid", l)), rk(k) != rk(l))),
+                z3.Implies(s.K != -1, z3.ForAll([k], z3.Implies(z3.And(nonroot(k), z3.Or(z3.Not(s.ex), r.col("pid", k) != root_id)), z3.And(1 <= rk(k), rk(k) <= s.K)))))
+        raise KeyError(which)
+
+    return f
+
+
+# the three clauses that the FINDING touches come last (a failed clause is assumed afterwards, it would mask the later ones)
+RET_POSTS = ["rows-correspond-one-to-one-to-the-input-points-plus-soma", "every-row-carries-the-position-of-its-input-point-radius-1-type-soma-or-glia",
+             "single-root-is-the-soma-or-first-point", "parent-relation-is-the-greedy-attachments", "no-non-exempt-node-has-more-than-K-children",
+             "a-Tree-with-exactly-the-seven-named-columns-of-n-rows-sharing-nothing-with-the-inputs", "ids-are-the-row-numbers",
+             "sorted-result-has-root-0-and-parents-before-children"]
+
+
+def after_tree(which):
+    """annotation point right after `t = Tree.from_data_frame(...)`: the loop is over.  Restates what the loop established (so that the
+    obligations of the tail find it) and DEFINES C05's ghost symbols for the table handed to sort_tree: root row 0, parent row = the
+    attachment, row of an id = the id itself (ids are 0..n-1), depth = the ghost depth of the loop."""
+    def f(E, v, o):
+        from contracts import C05
+
+        if E.ghost.get("c17-tree-annotated"):
+            return True  # the second assignment to t (`t = sort_tree(t)`)
+        s = St(v)
+        a = _q("a")[0]
+        if which == "every-point-is-connected":
+            return post(which)(E, v, o)
+        if which == "parent-table-is-a-tree-rooted-at-0":
+            return post(which)(E, v, o)
+        if which == "ghost-definitions-for-sorting":
+            E.assume(C05.P0 == 0)
+            E.assume(z3.ForAll([a], z3.And(C05.pp(a) == s.Pid(a), C05.posof(a) == a, C05.depth5(a) == s.Depth(a))))
+            E.assumptions.add("ghost definitions (C05's vocabulary at the sort_tree call of PointsToCuntzMST.__call__): rootrow5 := 0, pp := the attachment table pid, "
+                              "posof := identity, depth5 := ghost depth of the loop")
+            E.ghost["c17-tree-annotated"] = True
+            return True
+        raise KeyError(which)
+
+    return f
+
+
 POSTS = ["every-point-is-connected", "parent-table-is-a-tree-rooted-at-0", "rows-are-the-input-points-once-each-in-order",
          "no-non-exempt-node-has-more-than-K-children", "furcations-count-the-children-and-respect-the-limit", "path-length-to-the-root",
          "attachment-order-is-a-bijection-with-parents-first", "each-point-was-attached-by-a-cheapest-admissible-edge", "transform-object-unchanged"]
@@ -408,12 +548,11 @@ def pre(which):
 
 
 def register(R: Registry):
-    local = {
-        "swcgeom/core/tree.py:Tree.from_data_frame": Contract("swcgeom/core/tree.py:Tree.from_data_frame", prop="C17", trusted=True, returns="oref",
-                                                              notes="cut: the tree built from the frame is not looked into"),
-        "swcgeom/core/tree_utils.py:sort_tree": Contract("swcgeom/core/tree_utils.py:sort_tree", prop="C17", trusted=True, returns="oref",
-                                                         notes="cut: renumbering (C-sort property) is not part of this contract"),
-    }
+    # Tree.from_data_frame is used MODULARLY here, through the clauses verified on the real function (see _register_fdf); the overlay
+    # only adds the result shape, so that no other carrier's call sites change.  sort_tree / _sort_tree / DictSWC.copy are inlined (real
+    # code), sort_nodes_impl enters through the contract proved under C05.
+    local = {FDF: Contract(FDF, returns=fdf_result, **fdf_contract())}
+    after_t = ["every-point-is-connected", "parent-table-is-a-tree-rooted-at-0", "ghost-definitions-for-sorting"]
     after_i = ["chosen-edge-joins-connected-unsaturated-to-unconnected",
                "chosen-edge-minimises-length-plus-bf-times-path-length-over-exactly-the-candidates", "ghost-step"]
     R.add(
@@ -421,16 +560,135 @@ def register(R: Registry):
         prop="C17",
         variants={"soma=None": call_setup(False), "soma given": call_setup(True), "soma=None, names= given (deprecated keyword)": call_setup(False, True)},
         requires=[("bf-in-unit-interval", pre("bf-in-unit-interval")), ("branching-limit-is-minus-one-or-positive", pre("branching-limit-is-minus-one-or-positive"))],
-        ensures=[(p, post(p)) for p in POSTS],
+        ensures=[(p, post(p)) for p in POSTS] + [("returned-tree/" + p, ret_post(p)) for p in RET_POSTS],
         loops={0: dict(invariant=[(x, inv(x)) for x in INVS], modifies=["g_pos", "g_perm", "g_crank", "g_kid", "g_depth"])},
         options=dict(
             registry=_Overlay(R, local),
-            asserts_after={"i": [(x, after_pick(x)) for x in after_i]},
+            asserts_after={"i": [(x, after_pick(x)) for x in after_i], "t": [(x, after_tree(x)) for x in after_t]},
             hints={"safety/argmin-some-unmasked-entry": argmin_hint, "loop0/preserved/every-attachment-so-far-was-greedy": greedy_hint},
         ),
         notes="n symbolic; dis abstract (edist >= 0, symmetric, zero diagonal); bf, K, exclude_soma, sort symbolic; names=None, and one concrete non-default SWCNames for the deprecated keyword. "
-              "Tail (Tree.from_data_frame, sort_tree) cut by assumed contracts local to this carrier; K = 0 and K < -1 excluded by precondition.",
+              "Tail real: Tree.from_data_frame by its verified contract, sort_tree inlined over C05's contract of sort_nodes_impl; K = 0 and K < -1 excluded by precondition.",
     )
+
+
+# ----------------------------------------------------------------------------- Tree.from_data_frame
+TREE = "swcgeom/core/tree.py"
+FDF = f"{TREE}:Tree.from_data_frame"
+TKIND = dict(id="int", type="int", x="real", y="real", z="real", r="real", pid="int")  # SWCNames field -> kind of the Tree column
+
+
+def custom_names():
+    from swcgeom.core.swc_utils import SWCNames
+
+    return SWCNames(id="ID", type="T", x="X", y="Y", z="Z", r="R", pid="PID")
+
+
+def _resolved(names):
+    from swcgeom.core.swc_utils import get_names
+
+    return get_names(names)
+
+
+def tree_shaped(t, nm, extra=()):
+    """t is a Tree object with exactly the five fields the constructors set, whose ndata holds exactly the seven columns
+    named by nm (in that order) followed by the columns `extra`, integer columns for id / type / pid, no two sharing storage"""
+    from swcgeom.core.swc_utils import get_types
+    from swcgeom.core.tree import Tree
+
+    if not (isinstance(t, Obj) and t.cls is Tree and set(t.fields) == {"types", "source", "comments", "names", "ndata"}):
+        return False
+    nd = t.fields["ndata"]
+    if not (isinstance(nd, PDict) and nd.items is not None and list(nd.items) == list(nm.cols()) + list(extra) and tuple(t.fields["types"]) == tuple(get_types())):
+        return False
+    return (all(type(nd.items[getattr(nm, f)]) is SArr and nd.items[getattr(nm, f)].kind == k for f, k in TKIND.items())
+            and all(type(nd.items[c]) is SArr for c in extra) and len({a.uid for a in nd.items.values()}) == len(nd.items))
+
+
+def frame_extras(df, nm):
+    """the columns of the frame that are not among the seven named ones, in the frame's order"""
+    return [c for c in df.cols if c not in nm.cols()]
+
+
+def fdf_setup(custom, int_r):
+    def f(S):
+        nm = custom_names() if custom else _resolved(None)
+        kinds = {getattr(nm, f): k for f, k in TKIND.items()}
+        if int_r:
+            kinds[nm.r] = "int"  # e.g. a constant radius column built from the Python int 1
+        kinds["extra"] = "real"  # a column the names do not mention: taken over as it is, after the seven named ones
+        df = S.dframe(kinds)
+        df.frozen = True
+        for a in df.cols.values():
+            a.frozen = True
+        return dict(df=df, source="cell.swc", comments=None, names=(nm if custom else None))
+
+    return f
+
+
+def fdf_pre(E, v, o):
+    """shape of the arguments the contract is verified for (decided concretely at every call site)"""
+    from pyvc.npmodels import DFrame
+
+    df, nm = v["df"], _resolved(v["names"])
+    if not isinstance(df, DFrame) or v["comments"] is not None or not isinstance(v["source"], str):
+        return False
+    return all(getattr(nm, f) in df.cols and type(df.cols[getattr(nm, f)]) is SArr and df.cols[getattr(nm, f)].kind in (("int",) if k == "int" else ("int", "real")) for f, k in TKIND.items())
+
+
+def fdf_post(which):
+    def f(E, v, o):
+        t, df, nm = v["result"], o["df"], _resolved(o["names"])
+        if fdf_pre(E, o, o) is not True or not tree_shaped(t, nm, frame_extras(df, nm)):
+            return False
+        if which == "a-Tree-with-the-seven-named-columns-then-the-other-columns-of-the-frame":
+            return True
+        nd = t.fields["ndata"].items
+        n = zint(df.n)
+        if which == "every-column-holds-the-frame-column-of-that-name":
+            conj = []
+            for c, k in [(getattr(nm, fld), k) for fld, k in TKIND.items()] + [(c, df.cols[c].kind) for c in frame_extras(df, nm)]:
+                a, src = nd[c], df.cols[c]
+                i = z3.Int(fresh_name("i"))
+                conj += [a.nz() == n, z3.ForAll([i], z3.Implies(z3.And(0 <= i, i < n), to_z3(a.get(i), k) == to_z3(src.get(i), k)))]
+            return z3.And(*conj)
+        if which == "names-source-kept-no-comments":
+            cm = t.fields["comments"]
+            return tuple(t.fields["names"]) == tuple(nm) and t.fields["source"] == o["source"] and isinstance(cm, PList) and cm.items == []
+        if which == "tree-object-and-column-dict-are-new":
+            return t.uid not in E.entry_uids and t.fields["ndata"].uid not in E.entry_uids and t.fields["comments"].uid not in E.entry_uids
+        raise KeyError(which)
+
+    return f
+
+
+FDF_POSTS = ["a-Tree-with-the-seven-named-columns-then-the-other-columns-of-the-frame", "every-column-holds-the-frame-column-of-that-name",
+             "names-source-kept-no-comments", "tree-object-and-column-dict-are-new"]
+
+
+def fdf_result(S, fr):
+    """shape of the result at call sites (every structural fact baked in here is a clause of `tree_shaped`, proved on the real code)"""
+    from swcgeom.core.swc_utils import get_types
+    from swcgeom.core.tree import Tree
+
+    df, nm = fr.vars["df"], _resolved(fr.vars["names"])
+    cols = {getattr(nm, f): SArr.fresh(k, zint(df.n), name="t_" + f) for f, k in TKIND.items()}
+    for c in frame_extras(df, nm):
+        cols[c] = SArr.fresh(df.cols[c].kind, zint(df.n), name="t_" + str(c))
+    return Obj(Tree, dict(types=get_types(), source=fr.vars["source"], comments=PList([]), names=nm, ndata=PDict(cols)))
+
+
+def fdf_contract(**kw):
+    return dict(prop="C17", requires=[("a-frame-with-the-seven-named-numeric-columns-no-comments", fdf_pre)], ensures=[(p, fdf_post(p)) for p in FDF_POSTS], **kw)
+
+
+def _register_fdf(R):
+    # verified on the real function; registered WITHOUT `returns`, so other carriers keep inlining the function.  __call__ uses the
+    # same clauses modularly through its private overlay (below).
+    R.add(FDF, variants={"default names": fdf_setup(False, False), "given names": fdf_setup(True, False), "given names, integer radius column": fdf_setup(True, True),
+                         "default names, integer radius column": fdf_setup(False, True)},
+          notes="frame of symbolic length with the seven named columns and one more (kept, after the named ones); source a string, comments=None; dtype casts (int32 / float32) are the "
+                "identity under `numpy ints do not overflow, floats are reals`", **fdf_contract())
 
 
 # ----------------------------------------------------------------------------- constructors
@@ -507,3 +765,4 @@ _register_call = register
 def register(R):  # noqa: F811
     _register_call(R)
     _register_inits(R)
+    _register_fdf(R)
